@@ -1,102 +1,176 @@
 (* C08 -- running commands never leaks descriptors, in the shell or into children.
-   Model: Model/OsLite.v + Model/Pipeline.v (run_pipeline of core.rs, both as it is and as repaired
-   by notes/C02-fix-1.patch: parameter fixed). *)
-From Coq Require Import List Arith Bool.
-From Cicada Require Import Model.OsLite Model.Pipeline Proofs.OsLiteProofs Proofs.PipelineProofs.
+   Model: Model/OsLite.v + Model/Pipeline.v (run_pipeline of core.rs as of /repo 567a7de).
+   [v0] is the code as it is; the other values of [variant] are the proposed repairs
+   notes/C08-fix-2..5.patch, notes/C04-fix-2.patch.  The theorems quantify over every variant, so
+   they are about the code as it is (instantiate v := v0) AND about each repaired version. *)
+From Coq Require Import List Arith Bool Lia.
+From Cicada Require Import Model.OsLite Model.Pipeline Proofs.OsLiteProofs Proofs.PipelineProofs Proofs.ChildProofs.
 Import ListNotations.
-
-(* what the property demands of one run: the shell's table is what it was (same numbers, same
-   objects), and every exec'd stage holds, above 2, exactly what the shell had without close-on-exec *)
-Definition kid_clean (T0 : table) (k : kid) : Prop :=
-  k_out k = OExec -> forall x, 3 <= x -> lookup (tab (k_proc k)) x = drop_cx (lookup T0 x).
-Definition run_clean (fixed : bool) (fail_at openable : nat -> bool) (pl : plan) (sh : proc) : Prop :=
-  let r := run_pipeline fixed fail_at openable pl sh in
-  teq_tab (res_shell r) (tab sh) /\ Forall (kid_clean (tab sh)) (res_kids r).
-Definition C08_full : Prop :=
-  forall fail_at openable pl sh, run_clean false fail_at openable pl sh.
 
 Definition nf (_ : nat) := false.
 Definition yes (_ : nat) := true.
 Definition sh0 := mkp t_std [].
 Definition ext := mks FNone [] KExt [].
 
-(* --- refutations: one witness per recorded class (each reproduced on the real binary) --- *)
+(* ---------------- the full statement ---------------- *)
+(* every exec'd stage holds 0 1 2 and, above 2, exactly what the shell had without close-on-exec *)
+Definition kid_clean (T0 : table) (k : kid) : Prop :=
+  k_out k = OExec ->
+  (forall x, x < 3 -> exists o, lookup (tab (k_proc k)) x = Some (o, false)) /\
+  (forall x, 3 <= x -> lookup (tab (k_proc k)) x = drop_cx (lookup T0 x)).
+Definition run_clean (v : variant) (fail_at openable : nat -> bool) (pl : plan) (sh : proc) : Prop :=
+  let r := run_pipeline v fail_at openable pl sh in
+  teq_tab (res_shell r) (tab sh) /\ Forall (kid_clean (tab sh)) (res_kids r).
+Definition C08_full : Prop :=
+  forall fail_at openable pl sh, run_clean v0 fail_at openable pl sh.
+
+(* ---------------- the remaining classes, as decidable predicates ---------------- *)
+(* stage classes: a dup()ed descriptor left open (2>&1 on an uncaptured last stage, 1>&2 unless captured last);
+   a captured last stage with a file redirection keeps the capture-pipe ends *)
+Definition Known_C08_child (v : variant) (capture last : bool) (st : stage) : bool :=
+  negb (clean v capture last (s_redirs st)).
+(* shell classes: a builtin run in the shell itself; a failing capture pipe() with stage pipes *)
+Definition Known_C08_shell (v : variant) (fail_at : nat -> bool) (pl : plan) : bool :=
+  is_single_builtin pl
+  || (capture_fails fail_at pl && negb (length (p_stages pl) =? 1) && negb (v_capfail v)).
+
+Lemma existsb_split : forall (A : Type) (f g : A -> bool) (c1 c2 : bool) l,
+  existsb (fun r => f r && c1 || g r && c2) l = existsb f l && c1 || existsb g l && c2.
+Proof.
+  induction l as [|x r IH]; [reflexivity|]. cbn [existsb]. rewrite IH.
+  destruct (f x), (g x), c1, c2, (existsb f r), (existsb g r); reflexivity.
+Qed.
+Lemma existsb_andc : forall (A : Type) (f : A -> bool) (c : bool) l,
+  existsb (fun r => f r && c) l = existsb f l && c.
+Proof.
+  induction l as [|x r IH]; [reflexivity|]. cbn [existsb]. rewrite IH.
+  destruct (f x), c, (existsb f r); reflexivity.
+Qed.
+Lemma Known_C08_child_classes : forall v capture last st,
+  Known_C08_child v capture last st = known_dupleak v last capture st || known_capredir v last capture st.
+Proof.
+  intros. unfold Known_C08_child, clean, known_dupleak, known_capredir, dirty.
+  rewrite has12_file.
+  rewrite (existsb_split _ (fun r => is_dup21 r && negb (negb last)) is_dup12 (negb capture) (negb last || negb capture)).
+  rewrite (existsb_andc _ is_dup21 (negb (negb last))).
+  destruct (v_dupclose v), (v_capclose v), last, capture, (existsb is_dup21 (s_redirs st)),
+    (existsb is_dup12 (s_redirs st)), (existsb is_file_redir (s_redirs st)); reflexivity.
+Qed.
+
+(* ---------------- what holds for every n, every initial table, every variant ---------------- *)
+Theorem C08_shell : forall v fail_at openable pl sh,
+  Known_C08_shell v fail_at pl = false ->
+  let r := run_pipeline v fail_at openable pl sh in
+  teq_tab (res_shell r) (tab sh) /\ (res_error r = false -> length (res_kids r) = length (p_stages pl)).
+Proof.
+  intros v fail_at openable pl sh K. unfold Known_C08_shell in K.
+  apply orb_false_iff in K. destruct K as (K1 & K2).
+  apply shell_restored; auto.
+  intro CF. rewrite CF in K2. cbn [andb] in K2. apply andb_false_iff in K2. destruct K2 as [K2|K2].
+  - left. apply negb_false_iff in K2. apply Nat.eqb_eq in K2. exact K2.
+  - right. apply negb_false_iff in K2. exact K2.
+Qed.
+Check C08_shell : forall v fail_at openable pl sh,
+  Known_C08_shell v fail_at pl = false ->
+  let r := run_pipeline v fail_at openable pl sh in
+  teq_tab (res_shell r) (tab sh) /\ (res_error r = false -> length (res_kids r) = length (p_stages pl)).
+
+(* every stage of every pipeline: outside the two leak classes an exec'd stage has exactly 0 1 2 plus
+   what the shell itself had open without close-on-exec -- no pipe end of another stage, no capture
+   pipe, no redirect target, no here-string pipe *)
+Theorem C08_children : forall v fail_at openable pl sh i0 o0 e0,
+  std_ok (tab sh) i0 o0 e0 -> is_single_builtin pl = false ->
+  let r := run_pipeline v fail_at openable pl sh in
+  res_error r = false ->
+  kids_ok (fun idx st k =>
+             Known_C08_child v (p_capture pl) (idx =? length (p_stages pl) - 1) st = false -> kid_clean (tab sh) k)
+          0 (p_stages pl) (res_kids r).
+Proof.
+  intros v fail_at openable pl sh i0 o0 e0 SO NB r NE.
+  eapply kids_ok_impl; [|apply (pipeline_kids v openable fail_at pl sh i0 o0 e0 SO NB NE)].
+  cbn beta. intros idx st k KS KN HE. unfold Known_C08_child in KN. apply negb_false_iff in KN. split.
+  - destruct (kid_std_fds _ _ _ _ _ _ _ _ _ _ _ KS HE) as (A & B & C).
+    intros x Hx. destruct x as [|[|[|x]]]; [eexists; exact A | eexists; exact B | eexists; exact C | lia].
+  - eapply kid_clean_above; eauto.
+Qed.
+Check C08_children : forall v fail_at openable pl sh i0 o0 e0,
+  std_ok (tab sh) i0 o0 e0 -> is_single_builtin pl = false ->
+  let r := run_pipeline v fail_at openable pl sh in
+  res_error r = false ->
+  kids_ok (fun idx st k =>
+             Known_C08_child v (p_capture pl) (idx =? length (p_stages pl) - 1) st = false -> kid_clean (tab sh) k)
+          0 (p_stages pl) (res_kids r).
+
+(* descriptor exhaustion in the up-front loop *)
+Theorem C08_emfile : forall v fail_at openable pl sh k,
+  k < length (p_stages pl) - 1 -> fail_at k = true ->
+  let r := run_pipeline v fail_at openable pl sh in
+  res_error r = true /\ res_kids r = [] /\ teq_tab (res_shell r) (tab sh).
+Proof. exact emfile_upfront. Qed.
+Check C08_emfile : forall v fail_at openable pl sh k,
+  k < length (p_stages pl) - 1 -> fail_at k = true ->
+  let r := run_pipeline v fail_at openable pl sh in
+  res_error r = true /\ res_kids r = [] /\ teq_tab (res_shell r) (tab sh).
+
+(* ---------------- refutations of the full statement on the code as it is ---------------- *)
+Definition kid0 (r : result) := hd (mkkid 0 sh0 OExec) (res_kids r).
+Definition p_dup := mkplan [mks FNone [mkr F2 false TAmp1] KExt []] false.
+Definition p_bcap := mkplan [mks FNone [] KBuiltin [true]] true.
+Definition p_capredir := mkplan [mks FNone [mkr F1 false (TFile 5)] KExt []] true.
+Definition p_look := mkplan [mks FNone [mkr F1 false TAmp2; mkr F1 false (TFile 5)] KBuiltin [true]] false.
 (* prog 2>&1 : the dup()ed descriptor 3 stays open in prog *)
-Example C08_refuted_dup :
-  lookup (tab (k_proc (hd (mkkid 0 sh0 OExec)
-     (res_kids (run_pipeline false nf yes (mkplan [mks FNone [mkr F2 false TAmp1] KExt []] false) sh0))))) 3
-  = Some (OInh 1, false).
+Example C08_refuted_dup : lookup (tab (k_proc (kid0 (run_pipeline v0 nf yes p_dup sh0)))) 3 = Some (OInh 1, false).
 Proof. vm_compute. reflexivity. Qed.
 (* echo $(alias) : the four capture-pipe ends stay open in the shell *)
 Example C08_refuted_builtin_capture :
-  map (lookup (tab (res_shell (run_pipeline false nf yes (mkplan [mks FNone [] KBuiltin [true]] true) sh0)))) [3; 4; 5; 6]
+  map (lookup (tab (res_shell (run_pipeline v0 nf yes p_bcap sh0)))) [3; 4; 5; 6]
   = [Some (OPipeR PCapOut, false); Some (OPipeW PCapOut, false); Some (OPipeR PCapErr, false); Some (OPipeW PCapErr, false)].
 Proof. vm_compute. reflexivity. Qed.
 (* echo $(prog > f) : prog keeps both ends of the stdout capture pipe *)
 Example C08_refuted_capredir :
-  map (lookup (tab (k_proc (hd (mkkid 0 sh0 OExec)
-     (res_kids (run_pipeline false nf yes (mkplan [mks FNone [mkr F1 false (TFile 5)] KExt []] true) sh0)))))) [3; 4]
+  map (lookup (tab (k_proc (kid0 (run_pipeline v0 nf yes p_capredir sh0))))) [3; 4]
   = [Some (OPipeR PCapOut, false); Some (OPipeW PCapOut, false)].
 Proof. vm_compute. reflexivity. Qed.
 (* alias 1>&2 > f : the look-ahead call of _get_std_fds opens f and never closes it *)
 Example C08_refuted_builtin_lookahead :
-  lookup (tab (res_shell (run_pipeline false nf yes
-     (mkplan [mks FNone [mkr F1 false TAmp2; mkr F1 false (TFile 5)] KBuiltin [true]] false) sh0))) 3
-  = Some (OFile 5 MTrunc, true).
+  lookup (tab (res_shell (run_pipeline v0 nf yes p_look sh0))) 3 = Some (OFile 5 MTrunc, true).
 Proof. vm_compute. reflexivity. Qed.
 (* echo $(a | b) when the first capture pipe() fails: the stage pipe 3,4 is not released *)
 Example C08_refuted_capture_fail :
-  let r := run_pipeline false (fun k => Nat.eqb k 1) yes (mkplan [ext; ext] true) sh0 in
+  let r := run_pipeline v0 (fun k => Nat.eqb k 1) yes (mkplan [ext; ext] true) sh0 in
   res_error r = true /\ map (lookup (tab (res_shell r))) [3; 4] = [Some (OPipeR (PStage 0), false); Some (OPipeW (PStage 0), false)].
 Proof. vm_compute. split; reflexivity. Qed.
 
 Theorem C08_refuted : ~ C08_full.
 Proof.
-  intro H. specialize (H nf yes (mkplan [mks FNone [mkr F2 false TAmp1] KExt []] false) sh0).
+  intro H. specialize (H nf yes p_dup sh0).
   destruct H as (_ & K). vm_compute in K. inversion K as [|k ks HK _]; subst.
-  specialize (HK eq_refl 3 (le_n 3)). vm_compute in HK. discriminate.
+  destruct (HK eq_refl) as (_ & HK3). specialize (HK3 3 (le_n 3)). vm_compute in HK3. discriminate.
 Qed.
 
-(* --- what holds, for every number of stages, every initial table, both variants of the code --- *)
-(* the classes in which the SHELL's table is not restored *)
-Definition Known_C08_shell (fail_at : nat -> bool) (pl : plan) : bool :=
-  is_single_builtin pl                                       (* builtin run in the shell itself *)
-  || (capture_fails fail_at pl && negb (length (p_stages pl) =? 1)).   (* capture pipe() fails, n > 1 *)
+(* the proposed repairs remove the witnesses (the first two are instances of C08_children / C08_shell
+   at the repaired variant; the builtin ones are computed) *)
+Example C08_repairs :
+  lookup (tab (k_proc (kid0 (run_pipeline (mkv true false false false false) nf yes p_dup sh0)))) 3 = None /\
+  map (lookup (tab (res_shell (run_pipeline (mkv false true false false false) nf yes p_bcap sh0)))) [3; 4; 5; 6] = [None; None; None; None] /\
+  map (lookup (tab (k_proc (kid0 (run_pipeline (mkv false false true false false) nf yes p_capredir sh0))))) [3; 4] = [None; None] /\
+  map (lookup (tab (res_shell (run_pipeline (mkv false false false true false) (fun k => Nat.eqb k 1) yes (mkplan [ext; ext] true) sh0)))) [3; 4] = [None; None] /\
+  res_error (run_pipeline (mkv false false false false true) nf (fun p => negb (Nat.eqb p 5)) (mkplan [mks FNone [mkr F1 false (TFile 5)] KBuiltin [true]] false) sh0) = true.
+Proof. vm_compute. repeat split; reflexivity. Qed.
 
-Theorem C08_shell : forall fixed fail_at openable pl sh,
-  Known_C08_shell fail_at pl = false ->
-  let r := run_pipeline fixed fail_at openable pl sh in
-  teq_tab (res_shell r) (tab sh) /\ (res_error r = false -> length (res_kids r) = length (p_stages pl)).
-Proof.
-  intros fixed fail_at openable pl sh K. unfold Known_C08_shell in K.
-  apply Bool.orb_false_iff in K. destruct K as (K1 & K2).
-  apply shell_restored; auto.
-  intro CF. rewrite CF in K2. cbn in K2. apply Bool.negb_false_iff in K2. apply Nat.eqb_eq in K2. exact K2.
-Qed.
-Check C08_shell : forall fixed fail_at openable pl sh,
-  Known_C08_shell fail_at pl = false ->
-  let r := run_pipeline fixed fail_at openable pl sh in
-  teq_tab (res_shell r) (tab sh) /\ (res_error r = false -> length (res_kids r) = length (p_stages pl)).
-
-(* descriptor exhaustion in the up-front loop: for EVERY failure point everything created is released,
-   nothing is forked and the result is an error *)
-Theorem C08_emfile : forall fixed fail_at openable pl sh k,
-  k < length (p_stages pl) - 1 -> fail_at k = true ->
-  let r := run_pipeline fixed fail_at openable pl sh in
-  res_error r = true /\ res_kids r = [] /\ teq_tab (res_shell r) (tab sh).
-Proof. exact emfile_upfront. Qed.
-Check C08_emfile : forall fixed fail_at openable pl sh k,
-  k < length (p_stages pl) - 1 -> fail_at k = true ->
-  let r := run_pipeline fixed fail_at openable pl sh in
-  res_error r = true /\ res_kids r = [] /\ teq_tab (res_shell r) (tab sh).
-
-(* non-vacuity: a 3-stage pipeline with a here-string and redirections, initial table with a hole *)
-Example C08_shell_nonvacuous :
-  let pl := mkplan [ext; mks FHere [mkr F2 false TAmp1] KExt []; mks FNone [mkr F1 true (TFile 4)] KExt []] false in
-  Known_C08_shell nf pl = false /\
-  length (res_kids (run_pipeline false nf yes pl (mkp [Some (OInh 0, false); Some (OInh 1, false); Some (OInh 2, false); None; Some (OInh 4, true)] []))) = 3.
-Proof. vm_compute. split; reflexivity. Qed.
+(* non-vacuity: a 3-stage pipeline with here-string and redirections from an initial table with a hole *)
+Example C08_nonvacuous :
+  let pl := mkplan [ext; mks FHere [mkr F1 true (TFile 4)] KExt []; mks FNone [mkr F2 false (TFile 6)] KExt []] false in
+  let sh := mkp [Some (OInh 0, false); Some (OInh 1, false); Some (OInh 2, false); None; Some (OInh 4, true)] [] in
+  Known_C08_shell v0 nf pl = false /\
+  map (fun st => Known_C08_child v0 false false st) (p_stages pl) = [false; false; false] /\
+  map (fun k => (k_out k, map (obj_at (tab (k_proc k))) [0; 1; 2; 3; 4; 5])) (res_kids (run_pipeline v0 nf yes pl sh))
+  = [(OExec, [Some (OInh 0); Some (OPipeW (PStage 0)); Some (OInh 2); None; None; None]);
+     (OExec, [Some (OPipeR (PHere 1)); Some (OFile 4 MAppend); Some (OInh 2); None; None; None]);
+     (OExec, [Some (OPipeR (PStage 1)); Some (OInh 1); Some (OFile 6 MTrunc); None; None; None])].
+Proof. vm_compute. repeat split; reflexivity. Qed.
 
 Print Assumptions C08_shell.
+Print Assumptions C08_children.
 Print Assumptions C08_emfile.
 Print Assumptions C08_refuted.
